@@ -112,16 +112,48 @@ func checkC13(w *World, r *Report) {
 		vr := w.Method("compile", "Compiler", "validateRestrictions")
 		fd, _ := w.FuncDecl(vr)
 		ok := false
-		ast.Inspect(fd.Body, func(x ast.Node) bool {
-			is, isIf := x.(*ast.IfStmt)
-			if !isIf || is.Init == nil {
-				return true
+		if vf := w.SSAFunc(vr); vf != nil {
+			sym := NewSym(w)
+			sym.Expand = false
+			gv := w.Var("compile", "validRestrictionsType")
+			// within one round of the loop over the children: the error is raised
+			// exactly for a restriction statement whose kind is not in the row
+			for _, bl := range vf.Blocks {
+				for _, in := range bl.Instrs {
+					c, isC := in.(*ssa.Call)
+					if !isC || c.Call.StaticCallee() == nil || c.Call.StaticCallee().Object() != types.Object(cerr) {
+						continue
+					}
+					lp, inLoop := loopOf(vf, bl)
+					if !inLoop {
+						continue
+					}
+					pc := sym.PathCond(lp.Header, bl, nil)
+					why := pcCompare(pc, func(a *pcAtom) string {
+						if a.op == token.LSS && a.x != nil && isRangeIndex(a.x) {
+							return "iter"
+						}
+						if tc, isT := a.v.(*ssa.Call); isT && a.x == nil && tc.Call.StaticCallee() != nil && tc.Call.StaticCallee().Name() == "IsTypeRestriction" {
+							return "restriction"
+						}
+						if ex, isE := a.v.(*ssa.Extract); isE && ex.Index == 1 {
+							if lk, isL := ex.Tuple.(*ssa.Lookup); isL && lk.CommaOk {
+								// the row: validRestrictionsType[schemaType]
+								if row, isRow := lk.X.(*ssa.Lookup); isRow {
+									if ld, isLd := row.X.(*ssa.UnOp); isLd {
+										if g, isG := ld.X.(*ssa.Global); isG && g.Object() == types.Object(gv) {
+											return "inrow"
+										}
+									}
+								}
+							}
+						}
+						return ""
+					}, func(env map[string]bool) bool { return env["iter"] && env["restriction"] && !env["inrow"] })
+					ok = why == ""
+				}
 			}
-			if u, isU := ast.Unparen(is.Cond).(*ast.UnaryExpr); isU && u.Op == token.NOT && len(callsTo(p, is.Body, cerr)) == 1 {
-				ok = true
-			}
-			return true
-		})
+		}
 		r.Check(ok, "R13.1", "validateRestrictions rejects", fd.Pos(), "kind ∉ row ⇒ error", "a restriction kind that does not apply to the base type is no longer refused")
 	})
 
